@@ -98,8 +98,8 @@ PROPS['C09'] = dict(
     level_text='every task graph built at boot and at each reload in seeded histories is compared node-, edge-, ancestry-, parent- and feedback-wise with an independent reference evaluator; sampling over programs and histories, not proof',
     probes=['graph_checked', 'graph_with_feedback', 'graph_with_join', 'rebuild'],
     batches=[
-        pipe('boot-graphs', 1500, 60000, faults=False, events=3, max_total=10, max_pkgs=5, workers=2),
-        pipe('reload-history', 900, 40000, faults=False, events=10, max_total=8, max_pkgs=4, mix=MIX_UPDATE, record_on_run=True),
+        pipe('boot-graphs', 1300, 60000, faults=False, events=3, max_total=10, max_pkgs=5, workers=2),
+        pipe('reload-history', 700, 40000, faults=False, events=10, max_total=8, max_pkgs=4, mix=MIX_UPDATE, record_on_run=True),
     ],
     wall=dict(quick=100, thorough=1500),
 )
@@ -110,15 +110,16 @@ PROPS['C15'] = dict(
     level_text='at every schedule build (boot and each reload) in seeded run/bump/reload histories, the set of scheduled algorithms and their targets is compared with the reference computed from the declared versions and db.versions(); sampling, not proof',
     probes=['rebuild', 'load_with_new_versions', 'load_with_some_new_some_old', 'version_recorded_by_run'],
     batches=[
-        pipe('boot-versions', 1000, 40000, faults=False, events=4, pre_versions=2),
-        pipe('reload-history', 1400, 60000, faults=False, events=12, mix=MIX_UPDATE, record_on_run=True, graph_edits=False),
-        pipe('reload-history-faults', 600, 30000, faults=True, net=True, events=12, mix=MIX_UPDATE, record_on_run=True),
+        dict(name='version-order-exhaustive (not simulation)', world='worlds.verorder', cfg={}, runs=dict(quick=4, thorough=4)),
+        pipe('boot-versions', 800, 40000, faults=False, events=4, pre_versions=2),
+        pipe('reload-history', 1000, 60000, faults=False, events=12, mix=MIX_UPDATE, record_on_run=True, graph_edits=False),
+        pipe('reload-history-faults', 400, 30000, faults=True, net=True, events=12, mix=MIX_UPDATE, record_on_run=True),
     ],
     wall=dict(quick=100, thorough=1500),
 )
 
 # properties whose checks are finished, validated on the unchanged tree and listed in MANIFEST.json
-CLAIMED = ['C01', 'C02', 'C03', 'C04', 'C05', 'C09', 'C11', 'C15']
+CLAIMED = ['C01', 'C02', 'C03', 'C04', 'C05', 'C09', 'C10', 'C11', 'C12', 'C15']
 
 NOT_APPLICABLE = {
     'C16': 'pure function of program text (compliance rules): no schedule, clock, I/O fault, crash point or second party for a simulator to own; generating packages and rule violations would be input generation, not simulation (DESIGN.md section 6)',
